@@ -290,6 +290,9 @@ static void vf_check_clear(void)
 #ifndef VF_LEN
 #define VF_LEN 4
 #endif
+#ifndef VF_SECOND
+#define VF_SECOND (-1)    /* optionally also the second key (sequences shorter than 2 go with second key 0) */
+#endif
 #ifndef VF_FIRST
 #define VF_FIRST (-1)     /* restrict the first key of the sequence: one group per first key */
 #endif
@@ -317,6 +320,7 @@ void h_b_seq(void)
             int keys[VF_LEN + 1], c = code;
             for (k = 0; k < len; k++) { keys[k] = c % VF_KEYS; c /= VF_KEYS; }
             if (VF_FIRST >= 0 && (len == 0 ? VF_FIRST != 0 : keys[0] != VF_FIRST)) continue;
+            if (VF_SECOND >= 0 && (len < 2 ? VF_SECOND != 0 : keys[1] != VF_SECOND)) continue;
             hinted = code % 2;
             VF_SCEN(len > 1);
             vf_build(keys, len, hinted);
@@ -381,6 +385,7 @@ void h_b_walk(void)
             int keys[VF_LEN + 1], c = code;
             for (k = 0; k < len; k++) { keys[k] = c % VF_KEYS; c /= VF_KEYS; }
             if (VF_FIRST >= 0 && (len == 0 ? VF_FIRST != 0 : keys[0] != VF_FIRST)) continue;
+            if (VF_SECOND >= 0 && (len < 2 ? VF_SECOND != 0 : keys[1] != VF_SECOND)) continue;
             VF_SCEN(len > 1);
             vf_build(keys, len, 0);
             vf_check_traversal();
